@@ -20,6 +20,7 @@ BUILD = os.path.join(ROOT, ".build")
 NCPU = int(os.environ.get("VERIF_JOBS", "16"))
 GUARD = "CHESSPP_VERIF"
 CXX = "g++"
+T0 = time.time()  # process start: wall_s in the evidence covers builds and every sub-run
 
 COMMON = ["-std=c++20", "-DLOG_LEVEL=0", "-DNDEBUG", "-D" + GUARD, "-w"]
 FLAVOURS = {
@@ -480,7 +481,7 @@ class Check:
 
     # -- verdict
     def finish(self):
-        wall = time.time() - self.t0
+        wall = time.time() - T0
         known = [k for k in load_known() if k.get("property") == self.pid]
         open_keys = [k for k in known if k.get("status") == "open"]
         new, kf = [], []
